@@ -8,7 +8,7 @@ from ..framework import result, ihash, emu_verdict
 
 ID = "C09"
 LEVEL = "fault_enumeration"
-RUNS = {"quick": 60, "thorough": 700}
+RUNS = {"quick": 80, "thorough": 700}
 RUN_ALARM = 600
 RULE = ("for each seeded protocol-conformant program (1-3 threads, direct and OVNI_TMPDIR modes, several flushes, attr_flush, events legally "
         "flushed after OHe, stream sizes aligned so that event boundaries fall on multiples of the stdio buffer) the fault-free run numbers its "
